@@ -567,6 +567,8 @@ _public_ int m_mod_set_tokenbucket(m_mod_t *mod, uint32_t rate, uint64_t burst) 
 
     /* If it was already set, remove old timer */
     if (mod->tb.timer.ns != 0) {
+        /* The bucket being replaced must not throttle its own removal: with no tokens left the old timer would survive */
+        mod->tb.tokens = UINT64_MAX;
         deregister_internal_tmr(mod, &mod->tb.timer, &mod->tb);
     }
     
